@@ -70,6 +70,8 @@ var c02TagForms = []string{
 	"{% include 'inc' with x only %}",
 	"{% embed x %}{% block b %}o{% endblock %}{% endembed %}",
 	"{% embed 'base' with x %}{% block b %}{{ parent() }}{% endblock %}{% endembed %}",
+	"{% embed 'setter' only %}{% endembed %}{% include 'setter' only %}{% embed 'setter' with x only %}{% block b %}{% set q = x %}{% endblock %}{% endembed %}",
+	"{% include 'setter' with x %}{% embed 'importer' only %}{% endembed %}{% include 'importer' with x only %}",
 	"{% extends x %}{% block b %}c{% endblock %}",
 	"{% extends 'base' %}{% use x %}",
 	"{% import x as m %}{{ m.f(1) }}",
@@ -94,7 +96,9 @@ var c02TagForms = []string{
 func c02Exec(env *stick.Env, src string, ctx map[string]stick.Value, desc string) core.Result {
 	name := src
 	if env == nil {
-		env = stdEnv(map[string]string{"main": src})
+		env = stdEnv(map[string]string{"main": src,
+			"setter":   "{% set y = 1 %}{% if true %}{% set z = y %}{% endif %}S[{% block b %}{% set w = 2 %}b{{ w }}{% endblock %}]",
+			"importer": "{% import 'macros' as mm %}{% from 'macros' import m %}I{{ mm.m(1) }}{{ m(2) }}"})
 		name = "main"
 	}
 	out, err, pan := tryExec(env, name, ctx)
@@ -290,7 +294,7 @@ func init() {
 	core.Register(&core.Check{
 		ID:       "C02",
 		Category: "exploration",
-		Rule: "totality of Execute in supervised worker processes over: every binary operator x every pair of 42 context values (nil, bools, numbers incl. 1e308 / NaN / -0 / int8 min / uint64 max, strings, empty and non-empty slices, arrays, maps with string/int keys, nil maps, structs, pointers, nil pointers, time, decimal, Stringer, Number); 30 tag and expression forms consuming a value (for with and without key / inline if / else, if, set, do, include / embed / extends / use / import / from with the value as name or with-hash, block(), interpolation, literals, attribute chains, tests, callbacks, captures, macros, ranges) x every value; " +
+		Rule: "totality of Execute in supervised worker processes over: every binary operator x every pair of 42 context values (nil, bools, numbers incl. 1e308 / NaN / -0 / int8 min / uint64 max, strings, empty and non-empty slices, arrays, maps with string/int keys, nil maps, structs, pointers, nil pointers, time, decimal, Stringer, Number); 32 tag and expression forms consuming a value (for with and without key / inline if / else, if, set, do, include / embed / extends / use / import / from with the value as name or with-hash, block(), interpolation, literals, attribute chains, tests, callbacks, captures, macros, ranges) x every value; " +
 			"method calls with every argument list of length 0..3; in the twig environment every built-in filter x every value x every argument list of length 0..2 over 12 argument values, and filter sections with every ordered pair of filters; depth-2 operator compositions over 6^3 operands. Oracle: Execute returns (output or error); no panic, process death, memory blow-up or non-termination. distinct = distinct (template, context); non-trivial = all executed cases",
 		Assumptions: []string{
 			"outside the claim and not generated: ranges of more than a million elements, recursive includes / macros, panics inside user callbacks",
